@@ -163,10 +163,17 @@ BasePL(s) == [EmptyPL EXCEPT !.users = [u \in Users |-> IF u = "alice" THEN s EL
 PLEv(c) == [BaseEv EXCEPT !.type = "pl", !.sender = "alice", !.skey = "empty", !.newpl = c]
 
 InitPL1 ==
-    \E s \in {2, 3}, k \in PLKeys, o \in PLVals, n \in PLVals, sp \in {"int", "str", "strpad", "float", "frac", "badstr"} :
-       /\ (sp # "int" => n # Absent /\ o = Absent)
-       /\ st = WithPL(WithMem(BaseSt, "alice", "join"), SetKey(BasePL(s), k, o))
-       /\ ev = PLEv([SetKey(BasePL(s), k, n) EXCEPT !.spk = IF sp = "int" THEN "" ELSE k, !.spkind = sp])
+    \/ \E s \in {2, 3}, k \in PLKeys, o \in PLVals, n \in PLVals, sp \in {"int", "str", "strpad", "float", "frac", "badstr"} :
+          /\ (sp # "int" => n # Absent /\ o = Absent)
+          /\ st = WithPL(WithMem(BaseSt, "alice", "join"), SetKey(BasePL(s), k, o))
+          /\ ev = PLEv([SetKey(BasePL(s), k, n) EXCEPT !.spk = IF sp = "int" THEN "" ELSE k, !.spkind = sp])
+    \* the sender of the create event as an ordinary user: once a power-levels event exists it holds the level that
+    \* event gives it and nothing more (privileged-creator versions excepted, where the model gives it Inf)
+    \/ \E s \in {2, 3}, k \in PLKeys, o \in PLVals, n \in PLVals :
+          LET base == [BasePL(s) EXCEPT !.users = [u \in Users |-> IF u = "creator" THEN s ELSE Absent]] IN
+          /\ o # n
+          /\ st = WithPL(WithMem(BaseSt, "creator", "join"), SetKey(base, k, o))
+          /\ ev = [PLEv(SetKey(base, k, n)) EXCEPT !.sender = "creator"]
 
 PLKeySeq == <<"ban", "kick", "invite", "redact", "events_default", "state_default", "users_default",
               "events.pl", "events.topic", "events.msg", "notif.room", "notif.here",
